@@ -4,7 +4,7 @@
 (* first, as in the pipeline) and every source call c of the program:       *)
 (*        c is reported  <=>  TaintWalk!Warn(C, c).                         *)
 (* event: [ev |-> "c15", project, symbols |-> <<names>>,                    *)
-(*         reported |-> <<TIDs of the reported source calls>>, panic]       *)
+(*         reported |-> <<TIDs of the reported source calls>>, stage, panic]*)
 EXTENDS TaintWalk, Json, IOUtils, TLC
 Rec == ndJsonDeserialize(IOEnv.TRACE)
 VARIABLE l
@@ -29,7 +29,12 @@ Mismatches(e) ==
   IN  {JmpAt(C.P, c).tid : c \in {x \in S : InClassSource(C, x) /\ ((JmpAt(C.P, x).tid \in reported) # Warn(C, x))}}
         \cup (reported \ {JmpAt(C.P, c).tid : c \in S})        \* only source calls may be reported
 
-EventOK(e) == ~InClass(e) \/ (e.panic = "" /\ Mismatches(e) = {})
+\* A crash of a PREREQUISITE analysis (function signatures, pointer inference: stage "fnsig"/"pi")
+\* means cwe_476::check_cwe never ran: the event carries no observation of this property (such
+\* crashes belong to the pointer-inference / whole-pipeline properties and are counted by the
+\* driver).  A panic of the check itself is a violation.
+NotObserved(e) == e.stage \in {"fnsig", "pi"}
+EventOK(e) == ~InClass(e) \/ NotObserved(e) \/ (e.panic = "" /\ Mismatches(e) = {})
 
 \* witness for a rejected event: per mismatching source call the verdict and the reachable states
 Witness(e) ==
